@@ -15,31 +15,55 @@ CORE = {"orders", "orders.status", "orders.vol", "orders.price", "orders.times",
 
 # profile plans: (profile, histories, ops per history, extra drive args)
 PLANS = {
-    "C01": {"quick": [("disciplined", 400, 60, []), ("modify", 100, 50, []), ("wide", 60, 60, [])],
-            "thorough": [("disciplined", 12000, 120, ["--levels", "1,3,10,24"]), ("modify", 3000, 100, []),
-                         ("wide", 2000, 100, []), ("toggle", 2000, 100, [])]},
-    "C02": {"quick": [("disciplined", 200, 60, ["--levels", "1,2,3,5,10,24"]), ("toggle", 150, 60, ["--levels", "1,2,3,5,10,24"]),
-                      ("modify", 100, 60, ["--levels", "1,3,10"]), ("reload", 100, 60, ["--levels", "1,5,24"])],
-            "thorough": [("disciplined", 8000, 120, ["--levels", "1,2,3,5,10,24"]), ("toggle", 5000, 120, ["--levels", "1,2,3,5,10,24"]),
-                         ("modify", 3000, 120, ["--levels", "1,3,10"]), ("reload", 2000, 100, ["--levels", "1,5,24"]),
-                         ("wide", 2000, 100, [])]},
-    "C03": {"quick": [("disciplined", 300, 60, []), ("toggle", 150, 60, []), ("modify", 150, 60, [])],
-            "thorough": [("disciplined", 10000, 120, []), ("toggle", 4000, 120, []), ("modify", 4000, 120, []),
-                         ("wide", 2000, 100, [])]},
-    "C04": {"quick": [("redundant", 300, 80, []), ("toggle", 100, 60, [])],
-            "thorough": [("redundant", 8000, 150, []), ("toggle", 3000, 120, []), ("disciplined", 3000, 120, [])]},
-    "C05": {"quick": [("ties", 400, 60, []), ("ties", 100, 60, ["--prices", "2"])],
-            "thorough": [("ties", 12000, 120, []), ("ties", 4000, 100, ["--prices", "2"]),
-                         ("ties", 2000, 100, ["--levels", "1,10,24"])]},
-    "C06": {"quick": [("modify", 300, 40, ["--levels", "5"]), ("modify", 100, 60, ["--prices", "2"])],
-            "thorough": [("modify", 10000, 80, ["--levels", "5"]), ("modify", 4000, 120, ["--prices", "2"]),
-                         ("toggle", 2000, 100, [])]},
-    "C07": {"quick": [("reload", 200, 60, ["--levels", "1,10"])],
-            "thorough": [("reload", 6000, 120, ["--levels", "1,3,10,24"])]},
-    "C12": {"quick": [("malformed", 400, 50, []), ("disciplined", 100, 50, [])],
-            "thorough": [("malformed", 10000, 100, []), ("disciplined", 2000, 100, []), ("wide", 1000, 100, [])]},
-    "C13": {"quick": [("toggle", 400, 60, [])],
-            "thorough": [("toggle", 12000, 120, []), ("toggle", 2000, 100, ["--prices", "2"])]},
+    "C01": {"quick": [("book", "disciplined", 800, 60, []), ("book", "modify", 200, 50, []), ("book", "wide", 100, 60, [])],
+            "thorough": [("book", "disciplined", 12000, 120, ["--levels", "1,3,10,24"]), ("book", "modify", 3000, 100, []),
+                         ("book", "wide", 2000, 100, []), ("book", "toggle", 2000, 100, [])]},
+    "C02": {"quick": [("book", "disciplined", 300, 60, ["--levels", "1,2,3,5,10,24"]), ("book", "toggle", 300, 60, ["--levels", "1,2,3,5,10,24"]),
+                      ("book", "modify", 200, 60, ["--levels", "1,3,10"]), ("book", "reload", 100, 60, ["--levels", "1,5,24"]),
+                      ("market", "plain", 60, 80, [])],
+            "thorough": [("book", "disciplined", 8000, 120, ["--levels", "1,2,3,5,10,24"]), ("book", "toggle", 5000, 120, ["--levels", "1,2,3,5,10,24"]),
+                         ("book", "modify", 3000, 120, ["--levels", "1,3,10"]), ("book", "reload", 2000, 100, ["--levels", "1,5,24"]),
+                         ("book", "wide", 2000, 100, []), ("market", "plain", 1000, 100, []), ("menv", "plain", 1000, 10, [])]},
+    "C03": {"quick": [("book", "disciplined", 400, 60, []), ("book", "toggle", 200, 60, []), ("book", "modify", 300, 60, [])],
+            "thorough": [("book", "disciplined", 10000, 120, []), ("book", "toggle", 4000, 120, []), ("book", "modify", 4000, 120, []),
+                         ("book", "wide", 2000, 100, []), ("market", "plain", 1000, 100, [])]},
+    "C04": {"quick": [("book", "redundant", 500, 80, []), ("book", "toggle", 200, 60, []), ("book", "modify", 150, 60, [])],
+            "thorough": [("book", "redundant", 8000, 150, []), ("book", "toggle", 3000, 120, []), ("book", "disciplined", 3000, 120, []),
+                         ("book", "modify", 3000, 120, [])]},
+    "C05": {"quick": [("book", "ties", 500, 60, []), ("book", "ties", 200, 60, ["--prices", "2"]),
+                      ("env", "overfull", 100, 8, []), ("menv", "overfull", 100, 8, [])],
+            "thorough": [("book", "ties", 12000, 120, []), ("book", "ties", 4000, 100, ["--prices", "2"]),
+                         ("book", "ties", 2000, 100, ["--levels", "1,10,24"]),
+                         ("env", "overfull", 2000, 12, []), ("menv", "overfull", 2000, 12, [])]},
+    "C06": {"quick": [("book", "modify", 500, 40, ["--levels", "5"]), ("book", "modify", 200, 60, ["--prices", "2"])],
+            "thorough": [("book", "modify", 10000, 80, ["--levels", "5"]), ("book", "modify", 4000, 120, ["--prices", "2"]),
+                         ("book", "toggle", 2000, 100, [])]},
+    "C07": {"quick": [("book", "reload", 300, 60, ["--levels", "1,10"]), ("market", "reload", 100, 80, ["--levels", "1,10"])],
+            "thorough": [("book", "reload", 6000, 120, ["--levels", "1,3,10,24"]), ("market", "reload", 2000, 120, ["--levels", "1,3,10"])]},
+    "C08": {"quick": [("env", "plain", 300, 8, ["--levels", "3"]), ("menv", "plain", 200, 8, ["--levels", "3"]),
+                      ("env", "toggle", 100, 8, []), ("menv", "toggle", 100, 8, [])],
+            "thorough": [("env", "plain", 5000, 12, ["--levels", "1,3,10"]), ("menv", "plain", 4000, 12, ["--levels", "1,3,10"]),
+                         ("env", "toggle", 2000, 12, []), ("menv", "toggle", 2000, 12, [])]},
+    "C10": {"quick": [("env", "plain", 200, 8, []), ("menv", "plain", 200, 8, []), ("menv", "toggle", 100, 8, [])],
+            "thorough": [("env", "plain", 4000, 12, ["--levels", "1,3,10"]), ("menv", "plain", 4000, 12, ["--levels", "1,3,10"]),
+                         ("menv", "toggle", 2000, 12, []), ("env", "malformed", 1000, 10, [])]},
+    "C11": {"quick": [("env", "plain", 200, 10, ["--levels", "1,2,5,10,24"]), ("menv", "plain", 200, 10, ["--levels", "1,3,10"])],
+            "thorough": [("env", "plain", 5000, 30, ["--levels", "1,2,5,10,24"]), ("menv", "plain", 4000, 30, ["--levels", "1,3,10"]),
+                         ("menv", "toggle", 1000, 20, [])]},
+    "C12": {"quick": [("book", "malformed", 400, 50, []), ("book", "disciplined", 100, 50, []),
+                      ("market", "malformed", 100, 60, []), ("env", "malformed", 100, 6, []), ("menv", "malformed", 100, 6, [])],
+            "thorough": [("book", "malformed", 10000, 100, []), ("book", "disciplined", 2000, 100, []), ("book", "wide", 1000, 100, []),
+                         ("market", "malformed", 2000, 100, []), ("env", "malformed", 2000, 10, []), ("menv", "malformed", 2000, 10, [])]},
+    "C13": {"quick": [("book", "toggle", 500, 60, []), ("market", "plain", 100, 80, []), ("env", "toggle", 100, 8, []),
+                      ("menv", "toggle", 100, 8, [])],
+            "thorough": [("book", "toggle", 12000, 120, []), ("book", "toggle", 2000, 100, ["--prices", "2"]),
+                         ("market", "plain", 2000, 100, []), ("env", "toggle", 2000, 12, []), ("menv", "toggle", 2000, 12, [])]},
+    "C14": {"quick": [("market", "plain", 300, 80, ["--levels", "1,3,10"]), ("menv", "plain", 200, 8, ["--assets", "1,2,3,4"]),
+                      ("menv", "toggle", 100, 8, ["--assets", "2,3,4"])],
+            "thorough": [("market", "plain", 5000, 200, ["--levels", "1,3,10"]), ("menv", "plain", 4000, 12, ["--assets", "1,2,3,4"]),
+                         ("menv", "toggle", 2000, 12, ["--assets", "2,3,4"]), ("market", "reload", 1000, 100, [])]},
+    "C15": {"quick": [("env", "plain", 400, 8, []), ("menv", "plain", 300, 8, []), ("env", "overfull", 100, 6, [])],
+            "thorough": [("env", "plain", 20000, 10, []), ("menv", "plain", 10000, 10, []), ("env", "overfull", 3000, 8, [])]},
 }
 
 
@@ -49,8 +73,18 @@ class Finding:
         self.fields, self.tr, self.op, self.run = fields, tr, op, run
 
     @property
+    def hkind(self):
+        h = self.hid
+        for k in ("menv", "env", "market"):
+            if h.startswith(k):
+                return k
+        return "book"
+
+    @property
     def profile(self):
-        return self.hid.split("-")[0]
+        h = self.hid.split("-")[0]
+        k = self.hkind
+        return h[len(k):] if k != "book" else h
 
     def __repr__(self):
         a = f" {self.audit}" if self.audit else ""
@@ -87,15 +121,25 @@ def parse_driver(out, run):
     return finds, stats, done
 
 
-def run_profile(tag, profile, seed, hists, ops, extra, workdir):
+def gen_cmd(kind, profile, seed, hists, size, extra):
+    if kind == "book":
+        return [C.DRIVE, "book-gen", "--profile", profile, "--seed", str(seed), "--hists", str(hists), "--ops", str(size)] + extra
+    if kind in ("env", "menv"):
+        return [C.DRIVE, "env-gen", "--kind", kind, "--profile", profile, "--seed", str(seed), "--hists", str(hists),
+                "--rounds", str(size)] + extra
+    if kind == "market":
+        return [C.DRIVE, "market-gen", "--profile", profile, "--seed", str(seed), "--hists", str(hists), "--ops", str(size)] + extra
+    raise ValueError(kind)
+
+
+def run_profile(tag, kind, profile, seed, hists, ops, extra, workdir):
     """drive (real code) -> stream file -> Lean driver. Returns (finds, stats, done, stream_path)."""
     os.makedirs(workdir, exist_ok=True)
     stream = os.path.join(workdir, f"{tag}.stream")
     env = C.env_offline()
     env["VERIF_SCRATCH"] = os.path.join(workdir, "scratch")
     with open(stream, "w") as f:
-        p = subprocess.run([C.DRIVE, "book-gen", "--profile", profile, "--seed", str(seed), "--hists", str(hists),
-                            "--ops", str(ops)] + extra, stdout=f, stderr=subprocess.PIPE, env=env, text=True)
+        p = subprocess.run(gen_cmd(kind, profile, seed, hists, ops, extra), stdout=f, stderr=subprocess.PIPE, env=env, text=True)
     if p.returncode != 0:
         f = Finding("K", None, "harness", -1, {"harness-crashed:" + p.stderr[-200:].replace(" ", "_").replace("\n", "|")}, "1", "-", tag)
         return [f], {}, {}, stream
@@ -129,7 +173,7 @@ def replay_lines(lines, workdir):
         fh.write("\n".join(l for l in lines if l[:2] in ("H ", "O ")) + "\n")
     env = C.env_offline()
     env["VERIF_SCRATCH"] = os.path.join(workdir, "scratch")
-    p = subprocess.run([C.DRIVE, "book-replay", f], stdout=subprocess.PIPE, stderr=subprocess.PIPE, env=env, text=True)
+    p = subprocess.run([C.DRIVE, "replay", f], stdout=subprocess.PIPE, stderr=subprocess.PIPE, env=env, text=True)
     q = subprocess.run([C.DRIVER], input=p.stdout, stdout=subprocess.PIPE, stderr=subprocess.PIPE, text=True)
     os.remove(f)
     finds, _, _ = parse_driver(q.stdout, "replay")
@@ -156,9 +200,30 @@ def shrink(lines, pred, workdir, budget=400):
     def render(ops):
         return [head] + ["O " + o[0] for o in ops]
 
+    def refs(t):
+        """(asset, position of the order id in the token list) of an op that refers to an order."""
+        if t[0] in ("place", "cancel", "modify"):
+            return None, 1
+        if t[0] == "ev":
+            return None, 2
+        if t[0] in ("qcancel", "qmodify"):
+            return t[1], 2
+        if t[0] == "on":
+            _, pos = refs(t[2:])
+            return (t[1], pos + 2) if pos is not None else (None, None)
+        return None, None
+
+    def creator_asset(t):
+        if t[0] == "submit":
+            return t[1]
+        if t[0] == "on":
+            return t[1]
+        return None
+
     def remove(ops, k):
-        """ops without op k; if it created order id c: drop ops on c, renumber ids > c."""
+        """ops without op k; if it created order id c: drop ops on c, renumber ids > c (same asset)."""
         c = ops[k][1]
+        ca = creator_asset(ops[k][0].split(" "))
         out = []
         for j, (txt, cid) in enumerate(ops):
             if j == k:
@@ -167,18 +232,15 @@ def shrink(lines, pred, workdir, budget=400):
                 out.append([txt, cid])
                 continue
             t = txt.split(" ")
-            idpos = None
-            if t[0] in ("place", "cancel", "modify"):
-                idpos = 1
-            elif t[0] == "ev":
-                idpos = 2
-            if idpos is not None:
+            asset, idpos = refs(t)
+            if idpos is not None and asset == ca:
                 i = int(t[idpos])
                 if i == c:
                     continue
                 if i > c:
                     t[idpos] = str(i - 1)
-            out.append([" ".join(t), (cid - 1) if (cid is not None and cid > c) else cid])
+            same_asset = creator_asset(t) == ca
+            out.append([" ".join(t), (cid - 1) if (cid is not None and cid > c and same_asset) else cid])
         return out
 
     def holds(ops):
@@ -235,13 +297,13 @@ def check(prop, tier, seed, spec, verdict, workdir):
     results = []
     with cf.ThreadPoolExecutor(max_workers=16) as ex:
         futs = []
-        for pi, (profile, hists, ops, extra) in enumerate(plans):
+        for pi, (kind, profile, hists, ops, extra) in enumerate(plans):
             # split into shards so that all cores are used
             shards = max(1, min(16, hists // 50))
             per = (hists + shards - 1) // shards
             for s in range(shards):
-                tag = f"{profile}{pi}_{s}"
-                futs.append(ex.submit(run_profile, tag, profile, seed * 1000 + pi * 37 + s, per, ops, extra, workdir))
+                tag = f"{kind}{profile}{pi}_{s}"
+                futs.append(ex.submit(run_profile, tag, kind, profile, seed * 1000 + pi * 37 + s, per, ops, extra, workdir))
         for f in futs:
             results.append(f.result())
     finds, stats, totals, streams = [], {}, {}, {}
@@ -362,7 +424,7 @@ def decide(prop, tier, seed, spec, verdict, workdir, pr, finds, stats, totals, s
                 "complete observation is compared with the Lean model and the reference engine and the audit predicates are "
                 "evaluated on the implementation's own output; a history is non-trivial if it contains at least one trade and "
                 "one effective cancel or modify; distinct by hash of its op sequence",
-        "plans": [list(p[:3]) + [" ".join(p[3])] for p in plans],
+        "plans": [list(p[:4]) + [" ".join(p[4])] for p in plans],
         "samples": samples,
         "op_and_branch_distribution": dict(sorted(stats.items())),
         "impl_vs_property_failures": n_impl,
@@ -381,11 +443,11 @@ def search(prop, seed, spec, workdir):
     with cf.ThreadPoolExecutor(max_workers=16) as ex:
         futs = []
         for r in range(4):
-            for pi, (profile, hists, ops, extra) in enumerate(plans):
+            for pi, (kind, profile, hists, ops, extra) in enumerate(plans):
                 for s in range(4):
-                    tag = f"s{r}_{profile}{pi}_{s}"
-                    futs.append(ex.submit(run_profile, tag, profile, (seed + 7919 * (r + 1)) * 1000 + pi * 37 + s,
-                                          max(50, hists // 2), ops * 2, extra, sd))
+                    tag = f"s{r}_{kind}{profile}{pi}_{s}"
+                    futs.append(ex.submit(run_profile, tag, kind, profile, (seed + 7919 * (r + 1)) * 1000 + pi * 37 + s,
+                                          max(50, hists // 2), ops * 2 if kind in ("book", "market") else ops + 4, extra, sd))
         for fu in futs:
             fs, _, _, stream = fu.result()
             for f in fs:
@@ -436,6 +498,10 @@ def cfields(f):
     return f.fields & CORE
 
 
+def is_env(f):
+    return f.hkind in ("env", "menv")
+
+
 SPECS = {
     "C01": dict(modules=["Bourse.Props.C01"],
                 a=lambda f: f.kind == "R" and f.profile != "ties" and bool(cfields(f)),
@@ -450,8 +516,9 @@ SPECS = {
                 a=lambda f: f.kind == "A" and f.audit == "C04",
                 k=lambda f: f.kind == "K" and bool(f.fields & {"orders.status", "orders.times", "orders.ident", "t"})),
     "C05": dict(modules=["Bourse.Props.C05"],
-                a=lambda f: f.profile == "ties" and ((f.kind == "R" and bool(f.fields)) or (f.kind == "A" and f.audit in ("C02", "C03", "C04", "C06", "C07"))),
-                k=lambda f: f.profile == "ties" and f.kind == "K"),
+                a=lambda f: (f.profile == "ties" and ((f.kind == "R" and bool(f.fields)) or (f.kind == "A" and f.audit in ("C02", "C03", "C04", "C06", "C07"))))
+                            or (f.profile == "overfull" and f.kind == "A"),
+                k=lambda f: f.profile in ("ties", "overfull") and f.kind == "K"),
     "C06": dict(modules=["Bourse.Props.C06"],
                 a=lambda f: (f.kind == "A" and f.audit == "C06") or (f.kind == "R" and bool(cfields(f)) and f.profile == "modify"),
                 needs=lambda lines: any(l.startswith(("O modify", "O ev modify")) for l in lines),
@@ -459,10 +526,27 @@ SPECS = {
     "C07": dict(modules=["Bourse.Props.C07"],
                 a=lambda f: f.kind == "A" and f.audit == "C07",
                 k=lambda f: f.kind == "K" and f.op.startswith("reload")),
+    "C08": dict(modules=["Bourse.Props.C08"],
+                a=lambda f: is_env(f) and f.kind == "A" and (f.audit == "C08" or (f.audit == "SH" and f.op == "step")),
+                k=lambda f: is_env(f) and f.kind == "K" and f.op == "step"),
+    "C10": dict(modules=["Bourse.Props.C10"],
+                a=lambda f: is_env(f) and f.kind == "A" and (f.audit == "C10" or (f.audit == "SH" and f.op != "step")),
+                k=lambda f: is_env(f) and f.kind == "K" and (f.op != "step" or "cached_l2" in f.fields)),
+    "C11": dict(modules=["Bourse.Props.C11"],
+                a=lambda f: is_env(f) and f.kind == "A" and f.audit == "C11",
+                k=lambda f: is_env(f) and f.kind == "K" and any(x.startswith("rec.") for x in f.fields)),
     "C12": dict(modules=["Bourse.Props.C12"],
                 a=lambda f: f.kind == "A" and f.audit == "C12",
                 k=lambda f: f.kind == "K" and bool(f.fields & {"result", "orders.price"})),
     "C13": dict(modules=["Bourse.Props.C13"],
-                a=lambda f: f.kind == "A" and f.audit == "C13",
+                a=lambda f: (f.kind == "A" and (f.audit == "C13" or (f.audit == "C08" and "no_trades_while_disabled" in f.fields)))
+                            or (f.kind == "R" and f.profile == "toggle" and bool(cfields(f))),
+                needs=lambda lines: any(l.startswith("O trading 0") or (l.startswith("H ") and " book " in l and l.split()[6] == "0") for l in lines),
                 k=lambda f: f.kind == "K" and ((f.tr == "0" and bool(cfields(f))) or f.op.startswith("trading"))),
+    "C14": dict(modules=["Bourse.Props.C14"],
+                a=lambda f: f.hkind in ("menv", "market") and f.kind == "A" and f.audit in ("C14", "SH"),
+                k=lambda f: f.hkind in ("menv", "market") and f.kind == "K"),
+    "C15": dict(modules=["Bourse.Props.C15"],
+                a=lambda f: is_env(f) and f.kind == "A" and f.audit == "RNG",
+                k=lambda f: is_env(f) and f.kind == "K" and "schedule" in f.fields),
 }
